@@ -351,13 +351,14 @@ def run_history(case, root, ID, ls_after_each=False):
                 probes["repeat_checked"] = 1
                 a, b = prev["out"], out
                 same = all(a.get(k) == b.get(k)
-                           for k in ("kind", "val", "msg", "pos", "cls"))
+                           for k in ("kind", "val", "msg", "pos", "cls",
+                                     "trace"))
                 if not same:
                     V("repeat", "repeat-differs",
                       f"op#{idx} repeating `{src}` gave "
-                      f"{ {k: b.get(k) for k in ('kind','val','msg','pos')} }"
+                      f"{ {k: b.get(k) for k in ('kind','val','msg','pos','trace')} }"
                       f" but the first time "
-                      f"{ {k: a.get(k) for k in ('kind','val','msg','pos')} }")
+                      f"{ {k: a.get(k) for k in ('kind','val','msg','pos','trace')} }")
                     break
             prev = {"stmts": stmts, "inst": inst, "env": envname,
                     "faults_sig": fault_sig(faults, persistent),
